@@ -1351,3 +1351,9 @@ package core
 //@ func picast
 //@   ensures[C01.picast_keeps_tagged_strings] is(x, string) && (prefix("?", x.(string)) || prefix("F_", x.(string)) || prefix("B_", x.(string)) || prefix("S_", x.(string))) ==> result == x
 //@   ensures[C01.picast_tags_plain_strings] is(x, string) && !(prefix("?", x.(string)) || prefix("F_", x.(string)) || prefix("B_", x.(string)) || prefix("S_", x.(string))) ==> is(result, string) && result.(string) == "S_" + x.(string)
+
+// C12/C10: removing a disabled rule clears its "disabled" flag only after the rule itself is gone - in the other order there is
+// a window (or, on a storage error, a lasting state) in which the rule is stored and enabled.
+//@ func (*Location).RemRule
+//@   mark[ruleGone] at "call:Rem": true
+//@   assert[C12+C10.remrule_clears_the_flag_after_the_rule] at "call:RemProp": marked(ruleGone)
